@@ -1,11 +1,13 @@
 """Shared machinery of the checks: translator run, lake build + axiom audit, Lean
 driver, verdict logic, evidence and replay files, known findings."""
+import atexit
 import fcntl
 import hashlib
 import json
 import os
 import random
 import re
+import shutil
 import subprocess
 import sys
 import time
@@ -84,6 +86,8 @@ class Check:
         self.assumptions = []
         self.checker_cmds = []
         self.replaying = False
+        self._lk = None            # exclusive lock on lean/ while this run regenerates, builds and (if needed) falls back
+        self._driver_copy = None   # this run's own copy of the driver, built from the text its theorems were checked for
         # replays of earlier runs of this property are stale
         rdir = os.path.join(VERIF, "replays", pid)
         if os.path.isdir(rdir) and not os.environ.get("VERIF_KEEP_REPLAYS"):
@@ -120,6 +124,34 @@ class Check:
         """a concrete input on which the property fails (on the implementation)"""
         self.failures.append({"what": what, "input": inp, "source": source})
 
+    # ---------------------------------------------------------------- lock
+    def _acquire(self):
+        """Checks may run concurrently. Everything that writes under lean/ (translator output, pinned text put back,
+        lake build) happens under one exclusive lock per run, held from the regeneration to the end of the theorem
+        build; the run then works with its own copy of the driver, so that another run falling back to (or away from)
+        the pinned text of a unit cannot change the model under its feet."""
+        if self._lk is None:
+            self._lk = open(os.path.join(LEAN_DIR, ".lake.lock"), "w")
+            fcntl.flock(self._lk, fcntl.LOCK_EX)
+            return True
+        return False
+
+    def _release(self):
+        if self._lk is not None:
+            try:
+                fcntl.flock(self._lk, fcntl.LOCK_UN)
+                self._lk.close()
+            finally:
+                self._lk = None
+
+    def _copy_driver(self):
+        exe = os.path.join(LEAN_DIR, ".lake", "build", "bin", "driver")
+        if os.path.exists(exe):
+            dst = exe + f".run{os.getpid()}"
+            shutil.copy2(exe, dst)
+            self._driver_copy = dst
+            atexit.register(lambda d=dst: os.path.exists(d) and os.remove(d))
+
     # ---------------------------------------------------------------- translator
     def regen(self, required=None):
         """regenerate lean/LasModel/Gen/*.lean from the live package. The generated files are made of independent
@@ -128,6 +160,7 @@ class Check:
         still build against the unit's previous text)."""
         if required is None:
             required = REQUIRED_UNITS.get(self.pid, None)
+        self._acquire()
         p = subprocess.run(
             [PY, os.path.join(VERIF, "translator", "py2lean.py")],
             capture_output=True, text=True, env=env_clean(),
@@ -172,16 +205,24 @@ class Check:
 
     # ---------------------------------------------------------------- lean
     def _lake(self, args, timeout=3000):
-        lock = open(os.path.join(LEAN_DIR, ".lake.lock"), "w")
-        fcntl.flock(lock, fcntl.LOCK_EX)
+        mine = self._acquire()
         try:
             p = subprocess.run(["lake"] + args, cwd=LEAN_DIR, capture_output=True, text=True, timeout=timeout)
             return p.returncode, p.stdout + p.stderr
         finally:
-            fcntl.flock(lock, fcntl.LOCK_UN)
-            lock.close()
+            if mine:
+                self._release()
 
-    def lean_props(self, module, theorems, extra_sources=()):
+    def lean_props(self, module, theorems, extra_sources=(), keep_lock=False):
+        self._acquire()
+        try:
+            return self._lean_props(module, theorems, extra_sources)
+        finally:
+            if not keep_lock:
+                self._copy_driver()
+                self._release()
+
+    def _lean_props(self, module, theorems, extra_sources=()):
         """Build LasModel.Props.<module> and LasModel.Audit.<module>; one obligation per
         theorem (discharged iff its `#print axioms` line appears with allowed axioms)."""
         self.checker_cmds.append(f"lake build LasModel.Audit.{module}  (#print axioms per theorem)")
@@ -264,11 +305,22 @@ class Check:
 
     def driver(self, lines, timeout=1200):
         """run the compiled Lean model driver on the given command lines"""
-        exe = os.path.join(LEAN_DIR, ".lake", "build", "bin", "driver")
-        if not os.path.exists(exe):
-            rc, out = self._lake(["build", "driver"])
-            if rc != 0:
-                return None
+        built = os.path.join(LEAN_DIR, ".lake", "build", "bin", "driver")
+        if self._lk is not None:
+            exe = built                      # inside this run's locked section: the text in place is this run's
+        elif self._driver_copy and os.path.exists(self._driver_copy):
+            exe = self._driver_copy
+        else:
+            self._acquire()
+            try:
+                if not os.path.exists(built):
+                    rc, out = self._lake(["build", "driver"])
+                    if rc != 0:
+                        return None
+                self._copy_driver()
+            finally:
+                self._release()
+            exe = self._driver_copy
         data = "\n".join(lines) + "\n"
         p = subprocess.run([exe], input=data, capture_output=True, text=True, timeout=timeout)
         if p.returncode != 0:
@@ -299,6 +351,9 @@ class Check:
 
     # ---------------------------------------------------------------- verdict
     def finish(self):
+        self._release()
+        if self._driver_copy and os.path.exists(self._driver_copy):
+            os.remove(self._driver_copy)
         wall = time.time() - self.t0
         open_findings = [k for k in self.known_findings() if k.get("status") == "open" and k.get("property") == self.pid]
         new_failures, known_hits = [], []
